@@ -143,6 +143,7 @@ fn history(w: &mut World, rounds: u64, trials: usize) -> Result<(), String> {
                 1 => Shape::Mixed,
                 2 => Shape::CommitterLacks,
                 3 => Shape::External,
+                4 => Shape::ForeignGroup,
                 _ => {
                     if w.rng.chance(1, 3) {
                         Shape::AllHold
@@ -164,6 +165,7 @@ enum Shape {
     Mixed,
     CommitterLacks,
     External,
+    ForeignGroup,
 }
 
 /// One epoch of honest history without PSKs; members write / reload at different moments.
@@ -386,6 +388,68 @@ fn trial_inner(
     let n_ref = by_ref.iter().filter(|b| b.is_some()).count();
     w.out.cov.bump(&format!("trial:{shape:?}"));
     w.out.cov.bump(&format!("psk_list_len:{}", items.len()));
+
+    // ---- a resumption PSK that names a past epoch of ANOTHER group: nobody here holds it, whatever
+    // this group's own epoch of that number is (unwritten, stored, trimmed)
+    if shape == Shape::ForeignGroup {
+        use mls_rs::mls_rs_codec::MlsDecode;
+        let empty = Model::default();
+        let cm = models.get(&c).unwrap_or(&empty);
+        let lo = cur.saturating_sub(w.cfg.retention + 2);
+        let e = lo + w.rng.below((cur - lo + 1) as usize) as u64;
+        let where_ = if e == cur {
+            "current"
+        } else if cm.pending.contains(&e) {
+            "unwritten"
+        } else if cm.stored.contains(&e) {
+            "stored"
+        } else {
+            "not_retained"
+        };
+        let nh = match w.cfg.suite {
+            1 | 2 | 3 => 32,
+            7 => 48,
+            _ => 64,
+        };
+        let mut b = vec![0u8, 4, 2, 1];
+        crate::wire::put_opaque(&mut b, &w.rng.bytes(16));
+        b.extend_from_slice(&e.to_be_bytes());
+        crate::wire::put_opaque(&mut b, &w.rng.bytes(nh));
+        let Ok(prop) = Proposal::mls_decode(&mut b.as_slice()) else {
+            w.out.inconclusive.push("C18: could not build a foreign-group PSK proposal".into());
+            return Ok(());
+        };
+        let mut cg = w.g(c).clone();
+        let base = w.g(c).clone();
+        w.out.cov.eval(Some(fnv(format!("foreign|{where_}").as_bytes())));
+        w.out.cov.bump(&format!("foreign_group_psk:{where_}"));
+        match guarded(|| cg.commit_builder().raw_proposal(prop).build()) {
+            Ok(Ok(out)) => {
+                // which other members would follow
+                let mut followers = vec![];
+                for &m in act.iter().filter(|m| **m != c) {
+                    let mut g = w.g(m).clone();
+                    let cmsg = out.commit_message.clone();
+                    if matches!(guarded(|| g.process_incoming_message(cmsg)), Ok(Ok(_))) {
+                        followers.push(m);
+                    }
+                }
+                w.violate(
+                    format!("C18|commit_bound_to_resumption_psk_of_another_group|{where_}"),
+                    format!("member {c} at epoch {cur} built a commit with a resumption PSK that names epoch {e} of a group nobody here is in (its own group's epoch {e} is {where_}); accepted by {followers:?}"),
+                );
+            }
+            Ok(Err(e2)) => {
+                w.out.cov.bump(&format!("foreign_group_psk_refused:{}", ek(&format!("{e2:?}"))));
+                let d = residual_diff(w, c, &base, &cg);
+                if !d.is_empty() {
+                    w.violate(format!("C18|state_changed_by_refused_build|{}", d.join("+")), format!("member {c}: {d:?}"));
+                }
+            }
+            Err(p) => w.violate(format!("C18|panic|build|{}", p.chars().take(80).collect::<String>()), p),
+        }
+        return Ok(());
+    }
 
     // ---- the committer lacks one PSK: it must not be able to bind a commit to it
     if shape == Shape::CommitterLacks {
